@@ -357,6 +357,76 @@ fn check_vertex(
             }
         }
     }
+    // the second generation entry point (a standalone struct from a field list: create_composite_ir_kind +
+    // upcast_composite) obeys the codec switch too, whatever derives are configured
+    for t in &el.registry.types {
+        if t.ty.path.segments.last().map(|l| l != "Host").unwrap_or(true) || !t.ty.type_params.is_empty() {
+            continue;
+        }
+        let lists: Vec<&Vec<scale_info::Field<scale_info::form::PortableForm>>> = match &t.ty.type_def {
+            TypeDef::Composite(c) => vec![&c.fields],
+            TypeDef::Variant(vs) => vs.variants.iter().map(|x| &x.fields).collect(),
+            _ => vec![],
+        };
+        for with_derives in [true, false] {
+            let mut spec = v.spec();
+            if !with_derives {
+                spec.derives_all.clear();
+                spec.compact_as = None;
+            }
+            let settings = spec.build();
+            for fields in &lists {
+                if fields.is_empty() {
+                    continue;
+                }
+                let Ok(Ok(code)) = crate::checks::c18::standalone(&el.registry, &settings, "S", fields) else {
+                    continue; // failures of this entry point are C18's / C10's subject
+                };
+                let Ok(st) = syn::parse_str::<syn::ItemStruct>(&code) else { continue };
+                for (rf, gf) in fields.iter().zip(st.fields.iter()) {
+                    let codec_attrs: Vec<String> = gf
+                        .attrs
+                        .iter()
+                        .map(|a| squash(&quote::quote!(#a).to_string()))
+                        .filter(|a| a.starts_with("#[codec("))
+                        .collect();
+                    let reg_compact = {
+                        let mut id = rf.ty.id;
+                        loop {
+                            match el.registry.resolve(id) {
+                                Some(t) if crate::shape::is_prelude_cow(t) => match t.type_params.first().and_then(|p| p.ty) {
+                                    Some(inner) => id = inner.id,
+                                    None => break false,
+                                },
+                                Some(t) => break matches!(t.type_def, TypeDef::Compact(_)),
+                                None => break false,
+                            }
+                        }
+                    };
+                    if v.codec == 0 && !codec_attrs.is_empty() {
+                        ctx.violation(
+                            "C09/codec/standalone/attribute-emitted-when-off",
+                            format!("standalone struct (derives configured: {with_derives}) carries {codec_attrs:?} although codec attributes are off"),
+                            replay(v),
+                            size,
+                        );
+                    }
+                    if v.codec == 1 && reg_compact != codec_attrs.iter().any(|a| a == "#[codec(compact)]") {
+                        ctx.violation(
+                            "C09/codec/standalone/compact-marker",
+                            format!(
+                                "standalone struct (derives configured: {with_derives}): field `{}` is {}compact in the field list but carries {codec_attrs:?}",
+                                rf.name.clone().unwrap_or_default(),
+                                if reg_compact { "" } else { "not " }
+                            ),
+                            replay(v),
+                            size,
+                        );
+                    }
+                }
+            }
+        }
+    }
     // codec attributes against the registry
     for t in &el.registry.types {
         if t.ty.path.segments.len() < 2 {
